@@ -169,7 +169,7 @@ Qed.
 
 Lemma node_add_id n t n' t' : node_add eps n t = inl (n', t') -> t_id t' = t_id t.
 Proof.
-  unfold node_add. repeat case_match; intros H; try discriminate; injection H as <- <-; reflexivity.
+  unfold node_add. intros Hx. repeat case_match; try discriminate; injection Hx as <- <-; reflexivity.
 Qed.
 
 Lemma place_with_herr s sid k p nid :
@@ -298,6 +298,36 @@ Proof.
   unfold stmt_commit.
   destruct (fold_commit_spec (default [] (stmts s !! sid)) s) as (e1 & e2 & e3 & e4).
   simpl. rewrite e1. repeat split; auto.
+Qed.
+
+(* a refused cache.Evict (the victim is un-evicted by Commit) never shows up in the evictor log *)
+Lemma commit_op_not_refused s o x :
+  x ∈ evicts (commit_op eps s o) -> x ∈ evicts s \/ x ∉ refuse_evict s.
+Proof.
+  unfold commit_op. destruct (heap s !! op_task o) as [p|]; [|auto].
+  destruct (op_kind o).
+  - destruct (bool_decide (t_id p ∈ refuse_evict s)) eqn:Hb.
+    + destruct (unevict_with_ctl s p (op_prev o)) as (e1 & _). rewrite e1. auto.
+    + simpl. intros Hx. apply elem_of_cons in Hx as [->|Hx]; auto.
+      right. apply bool_decide_eq_false in Hb. exact Hb.
+  - auto.
+  - destruct (bool_decide (t_id p ∈ refuse_bind s)).
+    + destruct (unallocate_with_ctl s p) as (e1 & _). rewrite e1. auto.
+    + set (s1 := upd_logs s ((t_id p, t_node p) :: binds s) (evicts s)).
+      pose proof (ssn_update_status_ctl s1 p Binding) as H1.
+      destruct (ssn_update_status s1 p Binding) as [[f s2] p2]. simpl in H1. destruct f.
+      * destruct H1 as (e1 & _). rewrite e1. auto.
+      * destruct (same_ctl_trans _ _ _ H1 (unallocate_with_ctl s2 p2)) as (e1 & _). rewrite e1. auto.
+Qed.
+
+Lemma stmt_commit_not_refused s sid x :
+  x ∈ evicts (stmt_commit eps s sid) -> x ∈ evicts s \/ x ∉ refuse_evict s.
+Proof.
+  unfold stmt_commit. simpl. generalize (default [] (stmts s !! sid)). intros l. revert s.
+  induction l as [|o l IH]; intros s; simpl; [auto|].
+  intros Hx. destruct (IH _ Hx) as [H|H].
+  - apply (commit_op_not_refused s o x H).
+  - right. destruct (commit_op_spec s o) as (_ & e2 & _). rewrite <- e2. exact H.
 Qed.
 
 End WithEps.
